@@ -6,7 +6,7 @@ import json
 import os
 import random
 
-from .. import core, mm, pymach as pm, sx
+from .. import core, mm, mmgen3, pymach as pm, sx
 from .c03 import unify_syms
 
 THEOREMS = ['C16.translation_succeeds', 'C16.translation_accepted', 'C16.layout_independent',
@@ -108,6 +108,35 @@ def make_case(rng, quick):
     return {'sources': out, 'specs': specs, 'proofs': proofs, 'mand': mand, 'header': st, 'db': db, 'goal': goal, 'claim': image(goal, db.float_order), 'axioms': axioms, 'n_vars': len(set(gv))}
 
 
+def make_ncase(rng, quick):
+    """a database WITH declared notations (`$a #Notation`): outside the Lean model's fragment, inside the property's
+    quantifier — real pipeline vs the independent structural image (notations expanded), checker, layouts"""
+    db = mmgen3.NotDB(rng, nv=rng.choice((3, 3, 4)), n_consts=rng.randint(1, 3), n_ctors=rng.randint(1, 2), n_axioms=rng.randint(1, 3),
+                      n_rules=rng.randint(0, 2), with_app=rng.random() < 0.8, shuffle_floats=rng.random() < 0.6,
+                      shuffle_roles=rng.random() < 0.5)
+    st = db.header()
+    v = mm.verify(st)
+    tv = db.vars[:rng.randint(0, 3)]
+    goal, build = mm.gen_tree(rng, db, rng.randint(1, 3 if quick else 4), tv)
+    steps = build(mm.ProofBuilder(db, v))
+    gv = [x for x in mm.term_toks(goal) if x in db.vars]
+    mand = [f'{x}-is-pattern' for x in db.float_order if x in gv]
+    arity = {lab: (0 if e[0] in ('f', 'e') else len(e[2]) + len(e[3])) for lab, e in v.labels.items()}
+    variants = {'plain': mm.compress(steps, mand)[0], 'reuse': mm.compress_with_reuse(rng, steps, arity, mand)[0]}
+    out = {}
+    for name, proof in variants.items():
+        full = st + [('p', 'goal', ['|-'] + mm.term_toks(goal), proof)]
+        mm.verify(full)
+        out[name] = mm.print_db(full)
+    axioms = [mmgen3.image(db, t) for _, t in db.axioms]
+    for _, hyps, concl in db.rules:
+        p = mmgen3.image(db, concl)
+        for h in reversed(hyps):
+            p = ('imp', mmgen3.image(db, h), p)
+        axioms.append(p)
+    return {'sources': out, 'db': db, 'goal': goal, 'claim': mmgen3.image(db, goal), 'axioms': axioms, 'n_vars': len(set(gv)), 'notations': True}
+
+
 def encode_steps(nums):
     return ''.join('Z' if x == 'Z' else mm.enc_num(x) for x in nums)
 
@@ -179,6 +208,8 @@ def run(rep):
     core.rust_build()
     quick = rep.tier == 'quick'
     cases = [make_case(rng, quick) for _ in range(50 if quick else 1000)]
+    ncases = [make_ncase(rng, quick) for _ in range(40 if quick else 600)]
+    allcases = cases + ncases
     findings = []
 
     # ---- 1. the real translator: valid proofs, both layouts, several hash seeds; plain and optimised pipelines
@@ -188,13 +219,17 @@ def run(rep):
             hx = src.encode().hex()
             for mode in ('opt', 'plain', 'memo'):
                 lines.append(f'mmtranslate {hx} goal {mode}'); idx.append((i, name, mode))
+    for j, c in enumerate(ncases):       # declared notations: plain and optimised pipelines (no Lean model of these databases)
+        for name, src in c['sources'].items():
+            for mode in ('opt', 'plain'):
+                lines.append(f'mmtranslate {src.encode().hex()} goal {mode}'); idx.append((len(cases) + j, name, mode))
     seeds = (0, 3) if quick else (0, 1, 2, 3, 4, 5)
     per_seed = {sd: core.py_h(lines, hashseed=sd) for sd in seeds}
     pa = per_seed[seeds[0]]
     for sd in seeds[1:]:
         for a, b, (i, name, mode) in zip(pa, per_seed[sd], idx):
             if a != b and mode != 'memo':
-                findings.append({'key': 'hashseed', 'database': cases[i]['sources'][name][-1500:], 'seed_a': seeds[0], 'seed_b': sd, 'mode': mode,
+                findings.append({'key': 'hashseed', 'database': allcases[i]['sources'][name][-1500:], 'seed_a': seeds[0], 'seed_b': sd, 'mode': mode,
                                  'out_a': a[:300], 'out_b': b[:300], 'what': f'translation depends on PYTHONHASHSEED ({seeds[0]} vs {sd})'})
                 break
     real = {k: a for k, a in zip(idx, pa)}
@@ -254,7 +289,7 @@ def run(rep):
     n_acc = 0
     by_case = {}
     for (i, name, mode), a in todo:
-        c = cases[i]
+        c = allcases[i]
         src = c['sources'][name]
         if not a.startswith('(ok'):
             findings.append({'key': 'translate-raises', 'layout': name, 'mode': mode, 'python': a, 'database': src[-2500:],
@@ -295,7 +330,7 @@ def run(rep):
     for i, d in by_case.items():
         if len(set(d.values())) > 1:
             findings.append({'key': 'layout-dependent', 'what': 'the outcome depends on the compression layout (with / without reuse marks) or on --optimize',
-                             'outcomes': {str(k): str(v)[:400] for k, v in d.items()}, 'database': cases[i]['sources']['reuse'][-2000:]})
+                             'outcomes': {str(k): str(v)[:400] for k, v in d.items()}, 'database': allcases[i]['sources']['reuse'][-2000:]})
 
     # ---- 5. long proofs (memory slots) and the shipped benchmarks
     n_chain = 0
@@ -355,9 +390,14 @@ def run(rep):
         'mutated_proofs': len(muts), 'mutated_invalid': n_invalid,
         'targets_by_metavariables': {str(k): sum(1 for c in cases if c['n_vars'] == k) for k in range(4)},
         'shuffled_float_order': sum(1 for c in cases if c['db'].float_order != c['db'].vars),
+        'databases_with_declared_notations': len(ncases),
+        'notation_uses_in_targets_axioms_rules': sum(sum(mm.term_toks(t).count(n) for n in c['db'].notations for t in [c['goal']] + [t for _, t in c['db'].axioms] + [x for _, hs, cc in c['db'].rules for x in hs + [cc]]) for c in ncases),
+        'notation_bodies_applying_a_constructor': sum(1 for c in ncases for _, b in c['db'].notations.values() if any(x in c['db'].ctors for x in mm.term_toks(b))),
         'samples': [cases[0]['sources']['reuse'][-700:], pa[0][:200]],
     })
-    rep.assumptions += ['fragment F0 of DESIGN.md (no declared #Notation sugar, no #Substitution, no $d); targets citing an earlier $p are unsupported by the translator',
+    rep.assumptions += ['the THEOREMS are about fragment F0 of DESIGN.md (no declared #Notation sugar, no #Substitution, no $d); databases with declared notations '
+                        '(vlib/mmgen3.py) are covered by the real pipeline vs independent structural image (notations expanded) + checker + layouts only; '
+                        'targets citing an earlier $p are unsupported by the translator',
                         'theorems are about the Lean model of exec_proof (Pi2/MM/Translate.lean); the tie to translate.py is the byte-for-byte correspondence above',
                         'symbols named in order of first serialisation (CanonCalls) in translation_accepted']
     seen = set()
